@@ -233,8 +233,11 @@ def dag(draw, *, max_nodes=12, leaf_profile='plain', kinds=None, p_alias=0.55,
       node = {'k': 'ddict', 'factory': draw(st.sampled_from(['list', 'int', 'make_list', None])),
               'keys': keys, 'items': [ref() for _ in keys]}
     elif kind == 'nt':
-      if draw(st.booleans()):
-        node = {'k': 'nt', 'type': 'Pair', 'items': [ref(), ref()]}
+      which = draw(st.sampled_from(['Pair', 'Triple', 'PairSub', 'GenericNT']))
+      if which in ('Pair', 'PairSub'):
+        node = {'k': 'nt', 'type': which, 'items': [ref(), ref()]}
+      elif which == 'GenericNT':
+        node = {'k': 'nt', 'type': which, 'items': [ref() for _ in range(draw(st.integers(1, 2)))]}
       else:
         node = {'k': 'nt', 'type': 'Triple', 'items': [ref() for _ in range(draw(st.integers(1, 3)))]}
     elif kind == 'box':
